@@ -17,15 +17,39 @@ import (
 // response whose bytes, packetisation, delivery and failure the plan decides;
 // a consumer task drains the channel.
 
+// zooIndex names the validated entries and - where the name is free - the disputed ones (encodings on which the
+// library's decoder and the TDS layout disagree: differential oracles can still use those the library accepts).
 var zooIndex = func() map[string]peer.Entry {
 	m := map[string]peer.Entry{}
 	for _, e := range peer.Zoo() {
 		m[e.Name] = e
 	}
+	for _, e := range peer.ZooDisputed() {
+		if _, dup := m[e.Name]; !dup {
+			m[e.Name] = e
+		}
+	}
 	return m
 }()
 
 var zooList = peer.Zoo()
+
+// zooDisputed: the disputed entries whose name is not taken by a validated entry, and a set of their names.
+var zooDisputed, isDisputed = func() ([]peer.Entry, map[string]bool) {
+	val := map[string]bool{}
+	for _, e := range peer.Zoo() {
+		val[e.Name] = true
+	}
+	var l []peer.Entry
+	m := map[string]bool{}
+	for _, e := range peer.ZooDisputed() {
+		if !val[e.Name] && !m[e.Name] {
+			l = append(l, e)
+			m[e.Name] = true
+		}
+	}
+	return l, m
+}()
 
 // respDelivery describes how the peer hands a response to the transport.
 type respDelivery struct {
@@ -394,17 +418,28 @@ func buildResponse(names []string) ([]byte, []int, error) {
 }
 
 // genResponse draws a response: groups of [format, data...] and stand-alone packages, optional trailing final DONE.
-func genResponse(r *Rand, maxPkgs int) []string {
+func genResponse(r *Rand, maxPkgs int) []string { return genResponseFrom(r, maxPkgs, zooList) }
+
+// genResponseFrom draws a response from the given entries (formats are looked up in the whole index).
+func genResponseFrom(r *Rand, maxPkgs int, list []peer.Entry) []string {
 	byNeed := map[string][]string{}
 	var free []string
-	for _, e := range zooList {
+	var fmtNames []string
+	isFmt := map[string]bool{}
+	for _, e := range list {
+		if e.Needs != "" && !isFmt[e.Needs] {
+			isFmt[e.Needs] = true
+			fmtNames = append(fmtNames, e.Needs)
+		}
+	}
+	for _, e := range list {
 		switch e.Kind {
 		case "LANGUAGE", "LOGOUT":
 			continue
 		}
 		if e.Needs != "" {
 			byNeed[e.Needs] = append(byNeed[e.Needs], e.Name)
-		} else if _, isFmt := byNeedFmt[e.Name]; !isFmt {
+		} else if !isFmt[e.Name] {
 			free = append(free, e.Name)
 		}
 	}
